@@ -283,6 +283,9 @@ func (k Keeper) InitateGaugesForDuration(ctx sdk.Context, triggerDuration time.D
 			receivedAmount, err := k.liquidityKeeper.TransferFundsForSwapFeeDistribution(ctx, gauge.AppId, poolID)
 			if err != nil {
 				logger.Info(fmt.Sprintf("error occurred while swap fee fund transfer, err : %s", err))
+				// what has been distributed above is paid out: keep the gauge record in step with it
+				gauge.TriggeredCount = ongoingEpochCount
+				k.SetGauge(ctx, gauge)
 				continue
 			}
 			// in case of swap fee distribution denom change in params
